@@ -138,14 +138,16 @@ def case_query(mon: Monitor, rng: random.Random) -> None:
     A = pairs.M3(gb.affine)[:2, :2]
     pxarea = abs(np.linalg.det(A))
     must, may = set(), set()
+    # float resolution of the world coordinates themselves (a 1 mm pixel 77 km from the origin sits at pixel index 1e8: 2e-8 px per ulp): contact slivers of that width are "touching", not overlap
+    eps_w = 32 * math.ulp(max(1.0, float(np.abs(np.asarray(footprint(gb, 0, 0, NX, NY).exterior.coords)).max())))
     for r, c in itertools.product(range(nty), range(ntx)):
         tp = footprint(gb, ox[c], oy[r], ox[c + 1], oy[r + 1])
         a = tp.intersection(q_native).area
-        thr = (1e-9 if not other else 1e-6) * tp.area  # the query is pre-densified, so vertex-wise projection and true image agree far below a pixel
+        thr = max((1e-9 if not other else 1e-6) * tp.area, eps_w * tp.length)  # the query is pre-densified, so vertex-wise projection and true image agree far below a pixel
         if a > thr:
             must.add((r, c))
         scale = math.sqrt(tp.area)
-        if a > 0 or tp.distance(q_native) <= (1e-9 if not other else 1e-6) * max(scale, 1.0):
+        if a > 0 or tp.distance(q_native) <= (1e-9 if not other else 1e-6) * max(scale, 1.0) + eps_w:
             may.add((r, c))
     as_bbox = shape_kind == "bbox"
     if as_bbox:
@@ -155,7 +157,7 @@ def case_query(mon: Monitor, rng: random.Random) -> None:
         if other:
             return mon.skip("tiles", "cross-CRS bounding box (projected as a 4-point polygon by design)")
         rect = sg.box(*b)
-        must = {(r, c) for r, c in itertools.product(range(nty), range(ntx)) if footprint(gb, ox[c], oy[r], ox[c + 1], oy[r + 1]).intersection(rect).area > 1e-9 * footprint(gb, ox[c], oy[r], ox[c + 1], oy[r + 1]).area}
+        must = {(r, c) for r, c in itertools.product(range(nty), range(ntx)) if footprint(gb, ox[c], oy[r], ox[c + 1], oy[r + 1]).intersection(rect).area > max(1e-9 * footprint(gb, ox[c], oy[r], ox[c + 1], oy[r + 1]).area, eps_w * footprint(gb, ox[c], oy[r], ox[c + 1], oy[r + 1]).length)}
     else:
         query = geom.Geometry(qpoly, qcrs)
     res, e = call(lambda: list(gbt.tiles(query)))
